@@ -43,7 +43,10 @@ import (
 
 func main() { vf.Main("C27", vf.Exploration, run) }
 
-const hangGuard = 10 * time.Minute
+// hangGuard only bounds a session in which neither party can make progress any more (for
+// instance the cbc reader waiting for 256 KiB after a MAC failure): orders of magnitude
+// above the seconds a session takes even on a heavily loaded machine.
+const hangGuard = 5 * time.Minute
 
 // ---------------------------------------------------------------------------------
 // in-memory byte pipe with a tap
